@@ -196,7 +196,10 @@ func LexAll(src io.Reader, spec LexSpec) *LexResult {
 		if spec.NoOpts {
 			lexer, res.NewErr = mcap.NewLexer(src)
 		} else {
-			lexer, res.NewErr = mcap.NewLexer(src, spec.Options(cb))
+			opts := spec.Options(cb)
+			lexer, res.NewErr = mcap.NewLexer(src, opts)
+			// the options value belongs to the caller, who reuses it for something else
+			*opts = mcap.LexerOptions{}
 		}
 	})
 	if pi != nil {
